@@ -230,18 +230,24 @@ static void life_case (long idx, vf_rng *r)
         else if (k < 94) do_use (r);
         else if (t->kind <= 1) {
             if (!cache) { LIB (cache = pixman_glyph_cache_create ()); if (!cache) continue; }
-            if (frozen && glyph_heavy && vf_chance (r, 1, 4)) { LIB (pixman_glyph_cache_thaw (cache)); frozen = 0; nglyph = 0; H (" thaw"); }      /* survivors unknown after a thaw: forget the keys */
-            else if (nglyph < 32 && vf_chance (r, glyph_heavy ? 1 : 2, glyph_heavy ? 2 : 3)) { if (!frozen) { LIB (pixman_glyph_cache_freeze (cache)); frozen = 1; }
+            if (frozen && glyph_heavy && vf_chance (r, 1, 4)) { LIB (pixman_glyph_cache_thaw (cache)); frozen--; H (" thaw");
+                if (!frozen) nglyph = 0;      /* survivors unknown after the outermost thaw: forget the keys */
+                else { /* an inner thaw of nested freezes: the cache is still frozen, so every entry (and the image it owns) is still there and usable */
+                    for (int i = 0; i < nglyph; i++) { const void *g; LIB (g = pixman_glyph_cache_lookup (cache, (void *)(uintptr_t)0x10, (void *)(uintptr_t)(gkeys[i] * 8)));
+                        if (!g) { viol ("C20:glyph-released-while-cache-frozen", "an entry inserted under the outer freeze is gone after an inner thaw (nesting depth still %d)", frozen); break; }
+                        pixman_box32_t ex; pixman_glyph_t one = { 0, 0, g }; LIB (pixman_glyph_get_extents (cache, 1, &one, &ex)); }
+                    vf_count ("inner_thaws", 1); } }
+            else if (nglyph < 32 && vf_chance (r, glyph_heavy ? 1 : 2, glyph_heavy ? 2 : 3)) { if (!frozen || (glyph_heavy && frozen < 3 && vf_chance (r, 1, 4))) { LIB (pixman_glyph_cache_freeze (cache)); frozen++; }
                 const void *g; int key = s + 1; if (nglyph && vf_chance (r, 1, 3)) { key = gkeys[vf_next (r) % nglyph]; vf_count ("glyph_inserts_of_a_key_already_present", 1); }     /* a second entry for a key that is present: legal, the entries shadow each other and are all released with the cache */
                 LIB (g = pixman_glyph_cache_insert (cache, (void *)(uintptr_t)0x10, (void *)(uintptr_t)(key * 8), 1, 1, t->img)); if (g) gkeys[nglyph++] = key; H (" G%d", t->id); vf_count ("glyph_inserts", 1); }
             else if (nglyph) { int key = gkeys[--nglyph]; const void *g; LIB (g = pixman_glyph_cache_lookup (cache, (void *)(uintptr_t)0x10, (void *)(uintptr_t)(key * 8))); if (g) LIB (pixman_glyph_cache_remove (cache, (void *)(uintptr_t)0x10, (void *)(uintptr_t)(key * 8))); H (" g"); vf_count ("glyph_removes", 1); }
-            else if (frozen) { LIB (pixman_glyph_cache_thaw (cache)); frozen = 0; }
+            else if (frozen) { while (frozen) { LIB (pixman_glyph_cache_thaw (cache)); frozen--; } }
         }
         vf_max ("max_pool", npool);
     }
     /* drop every reference the program still holds, in random order */
     while (npool && !broken) { ticket *t = pool[vf_next (r) % npool]; do_unref (t); }
-    if (cache && !broken) { if (frozen) LIB (pixman_glyph_cache_thaw (cache)); LIB (pixman_glyph_cache_destroy (cache)); H (" cache-destroyed"); }
+    if (cache && !broken) { while (frozen) { LIB (pixman_glyph_cache_thaw (cache)); frozen--; } LIB (pixman_glyph_cache_destroy (cache)); H (" cache-destroyed"); }
     vf_count ("histories", 1); vf_count ("steps", steps); vf_cell ("cells", vf_mix (path, (uint64_t)nT));
     if (broken) return;
     vf_count ("quiescent_points", 1); vf_count ("evaluations", 1);
